@@ -25,9 +25,12 @@ fn drain_blobs<I: Iterator<Item = crate::Result<(ScanEntry, BlobFileId)>>>(
     loop {
         let Some(blob) = scanner.next_if(|x| match x {
             Ok((entry, blob_file_id)) => {
-                entry.key != key
-                    || (*blob_file_id != vptr.vhandle.blob_file_id)
-                    || (entry.offset < vptr.vhandle.offset)
+                // NOTE: Blobs of the same key that sit in another blob file (or further back)
+                // may belong to another vptr of that key, so they are not drained here
+                entry.key < key
+                    || (entry.key == key
+                        && *blob_file_id == vptr.vhandle.blob_file_id
+                        && entry.offset < vptr.vhandle.offset)
             }
             Err(_) => true,
         }) else {
@@ -139,6 +142,13 @@ pub struct RelocatingCompaction {
     blob_writer: BlobFileWriter,
     rewriting_blob_file_ids: HashSet<BlobFileId>,
     rewriting_blob_files: Vec<BlobFile>,
+
+    /// Blobs of the current key that were passed over while looking for another blob of that key
+    ///
+    /// The scanner orders blobs of one key by the seqno stored with the blob, which is not
+    /// necessarily the order of the vptrs (bulk ingestion assigns its seqno afterwards),
+    /// so a blob may show up before the vptr that points to it.
+    parked_blobs: Vec<(ScanEntry, BlobFileId)>,
 }
 
 impl RelocatingCompaction {
@@ -154,12 +164,55 @@ impl RelocatingCompaction {
             blob_writer,
             rewriting_blob_file_ids: rewriting_blob_files.iter().map(BlobFile::id).collect(),
             rewriting_blob_files,
+            parked_blobs: Vec::new(),
         }
     }
 
     // TODO: vvv validate/unit test this vvv
     fn drain_blobs(&mut self, key: &[u8], indirection: &BlobIndirection) -> crate::Result<()> {
         drain_blobs(&mut self.blob_scanner, key, indirection)
+    }
+
+    /// Returns the blob the vptr points to.
+    fn take_blob(
+        &mut self,
+        key: &[u8],
+        indirection: &BlobIndirection,
+    ) -> crate::Result<(ScanEntry, BlobFileId)> {
+        let is_match = |entry: &ScanEntry, blob_file_id: BlobFileId| {
+            blob_file_id == indirection.vhandle.blob_file_id
+                && entry.offset == indirection.vhandle.offset
+        };
+
+        // Parked blobs of previous keys are garbage
+        self.parked_blobs.retain(|(entry, _)| entry.key == key);
+
+        if let Some(idx) = self
+            .parked_blobs
+            .iter()
+            .position(|(entry, blob_file_id)| is_match(entry, *blob_file_id))
+        {
+            return Ok(self.parked_blobs.swap_remove(idx));
+        }
+
+        loop {
+            self.drain_blobs(key, indirection)?;
+
+            #[expect(clippy::expect_used, reason = "vptr is expected to match with blob")]
+            let (blob_entry, blob_file_id) = self
+                .blob_scanner
+                .next()
+                .expect("vptr was not matched with blob (scanner is unexpectedly exhausted)")?;
+
+            assert!(blob_entry.key <= key, "vptr was not matched with blob");
+
+            if is_match(&blob_entry, blob_file_id) {
+                return Ok((blob_entry, blob_file_id));
+            }
+
+            // Same key, but some other blob: park it, its vptr may still come
+            self.parked_blobs.push((blob_entry, blob_file_id));
+        }
     }
 }
 
@@ -182,13 +235,8 @@ impl CompactionFlavour for RelocatingCompaction {
                 .rewriting_blob_file_ids
                 .contains(&indirection.vhandle.blob_file_id)
             {
-                self.drain_blobs(&item.key.user_key, &indirection)?;
-
-                #[expect(clippy::expect_used, reason = "vptr is expected to match with blob")]
-                let (blob_entry, blob_file_id) = self
-                    .blob_scanner
-                    .next()
-                    .expect("vptr was not matched with blob (scanner is unexpectedly exhausted)")?;
+                let (blob_entry, blob_file_id) =
+                    self.take_blob(&item.key.user_key, &indirection)?;
 
                 assert_eq!(
                     blob_file_id, indirection.vhandle.blob_file_id,
